@@ -492,6 +492,10 @@ fn run_structure<T: RealNumber, D: Distance<Vec<T>, T>>(c: &mut Case, rows: &[Ve
 
 // ------------------------------------------------------------------------------------ generators
 fn draw_n(rng: &mut Rng, nmax: usize) -> usize {
+    // the `large` family: thousands of points
+    if scverif::big() > 0 {
+        return rng.us(1025, 3000);
+    }
     let r = rng.f();
     if r < 0.05 {
         rng.us(1, 8.min(nmax))
@@ -1155,6 +1159,7 @@ fn reject_check(c: &mut Case, inp: &EstInput, what: &str, fit_err: bool, predict
 }
 
 fn reg_run<D: Distance<Vec<f64>, f64> + serde::Serialize + serde::de::DeserializeOwned>(c: &mut Case, inp: &EstInput, dist: D) {
+    let idx = c.index;
     let what = "regressor";
     let x = DenseMatrix::from_2d_vec(&inp.rows);
     let xq = DenseMatrix::from_2d_vec(&inp.queries);
@@ -1167,7 +1172,7 @@ fn reg_run<D: Distance<Vec<f64>, f64> + serde::Serialize + serde::de::Deserializ
         _ => KNNRegressorParameters::<f64, Euclidian>::default().with_algorithm(inp.algo.to_name()).with_weight(inp.weight.lib()).with_distance(dist.clone()).with_k(inp.k),
     };
     c.bucket("builder-order-varied");
-    let fit = match must_sig(c, "KNNRegressor::fit", |p| est_panic_sig(inp, what, p), || KNNRegressor::fit(&x, &inp.y, params)) {
+    let fit = match must_sig(c, "KNNRegressor::fit", |p| est_panic_sig(inp, what, p), || KNNRegressor::fit(&x, &inp.y, scverif::reused(idx, params))) {
         Some(r) => r,
         None => return,
     };
@@ -1283,6 +1288,7 @@ fn knn_regressor(c: &mut Case) {
 }
 
 fn cls_run<D: Distance<Vec<f64>, f64> + serde::Serialize + serde::de::DeserializeOwned>(c: &mut Case, inp: &EstInput, dist: D) {
+    let idx = c.index;
     let what = "classifier";
     let x = DenseMatrix::from_2d_vec(&inp.rows);
     let xq = DenseMatrix::from_2d_vec(&inp.queries);
@@ -1295,7 +1301,7 @@ fn cls_run<D: Distance<Vec<f64>, f64> + serde::Serialize + serde::de::Deserializ
         _ => KNNClassifierParameters::<f64, Euclidian>::default().with_algorithm(inp.algo.to_name()).with_weight(inp.weight.lib()).with_distance(dist.clone()).with_k(inp.k),
     };
     c.bucket("builder-order-varied");
-    let fit = match must_sig(c, "KNNClassifier::fit", |p| est_panic_sig(inp, what, p), || KNNClassifier::fit(&x, &inp.y, params)) {
+    let fit = match must_sig(c, "KNNClassifier::fit", |p| est_panic_sig(inp, what, p), || KNNClassifier::fit(&x, &inp.y, scverif::reused(idx, params))) {
         Some(r) => r,
         None => return,
     };
@@ -1470,6 +1476,16 @@ fn api_paths_fam(c: &mut Case) {
     scverif::apipaths::case(c, "C04")
 }
 
+/// searches and both estimators over 1025..3000 points (beyond the ordinary bound of 200)
+fn large(c: &mut Case) {
+    let g = c.index % 3;
+    scverif::with_big(1, || match g {
+        0 => search(c),
+        1 => knn_regressor(c),
+        _ => knn_classifier(c),
+    })
+}
+
 fn main() {
     runner::main(Spec {
         property: "C04",
@@ -1490,6 +1506,7 @@ fn main() {
             Family::new("heap", 6000, 200000, heap),
             Family::new("knn_regressor", 4000, 150000, knn_regressor),
             Family::new("knn_classifier", 4000, 150000, knn_classifier),
+            Family::new("large", 300, 6000, large),
         ],
         min_nontrivial: 4000,
         case_timeout_s: 120,
